@@ -66,9 +66,9 @@ pub mod verif_log {
 
     pub fn record(event: String) {
         if TERSE.load(std::sync::atomic::Ordering::SeqCst) {
-            const DROP: [&str; 14] = [
+            const DROP: [&str; 16] = [
                 "SEND ", "RECV ", "WIRE ", "DELIVER ", "T_", "GEN ", "SCHED ", "CANCEL ", "EV_", "TO_BOOTSTRAP",
-                "AIDS ", "DROP ", "NOENDPOINT", "SENDFAIL",
+                "AIDS ", "DROP ", "NOENDPOINT", "SENDFAIL", "REG ", "UNREG ",
             ];
             if DROP.iter().any(|p| event.starts_with(p)) {
                 return;
